@@ -102,7 +102,13 @@ def ws_msg_json(m: Optional[dict]) -> Any:
     if t == "websocket.close":
         j = {"t": "close"}
         if "code" in m:
-            j["code"] = m["code"]
+            # `int()` is the language's own conversion: its value, or the class it raises, is an input of the model
+            try:
+                j["code"] = {"i": int(m["code"])}
+            except (ValueError, TypeError) as e:
+                j["code"] = {"err": type(e).__name__}
+        if m.get("reason") is not None:
+            j["reason"] = hv(m["reason"])
         return j
     return {"t": "other"}
 
